@@ -346,6 +346,7 @@ pub struct W {
     err: Option<String>,
     in_probe: bool,
     free_choice: bool,
+    prefix_failed: bool,
     req_labels: Vec<String>,
     stalls: u32,
     /// consecutive default time steps during which the plugin neither answered an HTLC nor issued a payment-related request
@@ -539,7 +540,7 @@ impl W {
         let cfg = Arc::clone(&self.cfg);
         let mut free: Vec<(Ev, String)> = Vec::new(); // default-class events, in priority order
         let mut alts: Vec<(Ev, String)> = Vec::new();
-        if self.inc.is_none() {
+        if self.inc.is_none() || self.prefix_failed {
             return Vec::new();
         }
         let deliverable = self.deliverable();
@@ -1802,6 +1803,7 @@ impl Model for W {
             err: None,
             in_probe: false,
             free_choice: false,
+            prefix_failed: false,
             req_labels: Vec::new(),
             stalls: 0,
             idle_advances: 0,
@@ -1813,18 +1815,45 @@ impl Model for W {
         };
         w.boot();
         w.last_parts = w.sim.with(|s| s.parts.clone());
-        for l in cfg.prefix.iter() {
-            let evs = w.compute_events();
-            match evs.iter().position(|e| &e.1.label == l) {
-                Some(i) => {
-                    let ev = evs[i].0.clone();
-                    w.trace.push(format!("[prefix] {}", l));
-                    w.history.push(l.clone());
-                    w.free_choice = true;
-                    w.apply_ev(&ev);
+        // The prefix is a small script: plain labels of node-side events and deliveries, plus directives that do not
+        // depend on which RPCs the plugin happens to issue (so that a harmless refactoring of the plugin does not
+        // break the scenario): "@default-until-pay" = default events until a pay command runs,
+        // "@stall-oldest" = delay the oldest pending request.
+        'prefix: for l in cfg.prefix.iter() {
+            let mut guard = 0;
+            loop {
+                let evs = w.compute_events();
+                let pick: Option<usize> = if l == "@default-until-pay" {
+                    if w.sim.with(|s| s.pays.iter().any(|c| c.running)) {
+                        break;
+                    }
+                    if evs.first().map(|e| e.1.cost == 0).unwrap_or(false) {
+                        Some(0)
+                    } else {
+                        None
+                    }
+                } else if l == "@stall-oldest" {
+                    evs.iter().position(|e| e.1.label.starts_with("Stall("))
+                } else {
+                    evs.iter().position(|e| &e.1.label == l)
+                };
+                match pick {
+                    Some(i) => {
+                        let ev = evs[i].0.clone();
+                        w.trace.push(format!("[prefix] {}", evs[i].1.label));
+                        w.history.push(evs[i].1.label.clone());
+                        w.free_choice = true;
+                        w.apply_ev(&ev);
+                    }
+                    None => {
+                        // the scenario does not apply to this code (never a verdict, never an error): explore nothing
+                        w.trace.push(format!("[prefix] directive {:?} not applicable; scenario skipped", l));
+                        w.prefix_failed = true;
+                        break 'prefix;
+                    }
                 }
-                None => {
-                    w.err = Some(format!("scenario prefix event {:?} is not enabled; enabled: {:?}", l, evs.iter().map(|e| e.1.label.clone()).collect::<Vec<_>>()));
+                guard += 1;
+                if !l.starts_with("@default") || guard > 40 {
                     break;
                 }
             }
